@@ -257,7 +257,7 @@ def oracle(case, io):
         d = np.array(data[c])
         sc = max(1.0, float(np.max(np.abs(d))))
         err = float(np.max(np.abs(np.array(pred) - d)))
-        if not np.all(np.isfinite(pred)) or err > (1e-12 * cond + 1e-9) * sc:
+        if not np.all(np.isfinite(pred)) or err > (1e-13 * cond + 1e-9) * sc:      # (same constant as the comparison with the exact solution)
             return (f"{which} {params}: prediction at the data points differs from the fitted values by {err} "
                     f"(component {c}, condition number {cond:.1e}, data scale {sc})")
     return None
